@@ -566,5 +566,7 @@ pub fn run(tier: Tier) -> i32 {
         rep.machinery(format!("LX (gaps): {e}"));
     }
     crate::lx::speaks_first_pass(&mut rep, "C17", "http", tier.is_thorough());
+    crate::cworld::front_end_fault_pass(&mut rep, "C17", "http", "CONNECT");
+    crate::cworld::front_end_fault_pass(&mut rep, "C17", "http", "POST");
     rep.finish("IX on the real parse/rewrite functions vs an independent reference: {GET,POST,PUT,OPTIONS,CONNECT} x target forms {origin, '*', absolute http/https with and without path, authority} x 5 host spellings (names, IPv4, bracketed IPv6) x ports {none,80,443,8080,65535} x Host header {absent, 4 case spellings with/without space, differing from the URI} at every position among 0-2 other headers (duplicates, a name starting with 'host') x versions x body prefixes; LX: header blocks of 65000/65536/65537 bytes with body bytes in the same or a later segment, CONNECT ordering and early bytes, refusing target, origin-form requests per Host spelling, requests arriving in two pieces with 31 / 301 s of silence between them, bodies of 0..300 000 (1 000 000) bytes in many writes to an echoing origin (body at the origin and response at the client byte-identical); non-trivial = distinct case")
 }
